@@ -3,11 +3,14 @@ package c03
 import (
 	"bytes"
 	"encoding/json"
+	"os"
 
 	"github.com/specterops/dawgs/cypher/models/cypher"
 	"pgregory.net/rapid"
 
+	"verif/evid"
 	"verif/gen/cy"
+	"verif/qcase"
 )
 
 func unmarshalNumbers(b []byte, into any) error {
@@ -33,8 +36,17 @@ func excludedBy(c Case, model *cypher.RegularQuery) string {
 	return excludedByModel(c.Src, model)
 }
 
+// findingOpen: is the finding listed as open (known_findings.json / known_findings.d)? The development
+// aids can assume that every predicate's finding is open (VERIF_C03_ASSUME_OPEN=1).
+func findingOpen(id string) bool {
+	if os.Getenv("VERIF_C03_ASSUME_OPEN") != "" {
+		return true
+	}
+	return evid.R != nil && evid.R.KnownOpen(id)
+}
+
 func excludedByModel(src string, model *cypher.RegularQuery) string {
-	return ""
+	return qcase.C03ExcludedBy(model, findingOpen)
 }
 
 func (p Prog) String() string {
